@@ -1504,7 +1504,9 @@ def mutate_illformed(d, rng):
                 out.append((tag + '@%d' % k, with_items(items[:i] + [('rule', it[1], w, it[3])] + items[i + 1:])))
             out.append((tag + '@ctx', with_items(items[:i] + [('rule', it[1], it[2], ('alt', ('chr', 98), ('diff', EMPTY, bad)))] + items[i + 1:])))
             out.append((tag + '@let', with_items(items[:i] + [('let', 'usedv', ('diff', EMPTY, bad)), ('rule', it[1], ('alt', it[2], ('var', 'usedv')), it[3])] + items[i + 1:])))
-        for k, bad in enumerate([('str', [97, 98]), ('plus', ('chr', 97)), ('cat', ('chr', 97), ('chr', 98)), ('eoi',), ('opt', ('chr', 97))]):
+        # (a string literal is not a class whatever its length: one character, `"a"`, is still a string)
+        for k, bad in enumerate([('str', [97, 98]), ('plus', ('chr', 97)), ('cat', ('chr', 97), ('chr', 98)), ('eoi',), ('opt', ('chr', 97)), ('str', [97]), ('str', [0x4E2D]),
+                                 ('alt', ('chr', 98), ('str', [97]))]):
             for j, w in enumerate([('diff', ('any',), bad), ('diff', bad, ('chr', 98)), ('diff', EMPTY, bad), ('diff', ('any',), ('alt', ('chr', 98), bad)),
                                    ('diff', ('alt', ('any',), bad), ('chr', 98))]):
                 out.append(('diff_operand@%d.%d' % (k, j), with_items(items[:i] + [('rule', it[1], ('alt', w, it[2]), it[3])] + items[i + 1:])))
